@@ -132,8 +132,8 @@ struct _table_pdk16 table_pdk16[] =
   { "set0",    0xa800, 0xf000, OP_M_N,  1, 1 },
   { "set1",    0xbc00, 0xf000, OP_M_N,  1, 1 },
   // Control transfers.
-  { "goto",    0xc000, 0xf000, OP_K13,  2, 2 },
-  { "call",    0xe000, 0xf000, OP_K13,  2, 2 },
+  { "goto",    0xc000, 0xe000, OP_K13,  2, 2 },
+  { "call",    0xe000, 0xe000, OP_K13,  2, 2 },
   { NULL,      0x0000, 0x0000,      0,  0, 0 }
 };
 
